@@ -1,2 +1,6 @@
 import Gin.Basic
 import Gin.SelectorMap
+import Gin.Lemmas.AList
+import Gin.Lemmas.Trie
+import Gin.Lemmas.SelMapInv
+import Gin.Props.C08
